@@ -12,6 +12,7 @@ From NV Require Import Model.SrcPrelude Model.SrcPreludeStr Model.SrcPreludeGlob
   Gen.pysrc_eui48_gen Gen.pysrc_eui64_gen Gen.pysrc_eui48b_gen Gen.pysrc_eui64b_gen Gen.pysrc_rfc1924_gen Gen.pysrc_ipviews_gen
   Proofs.GenOk_Src_C15 Proofs.GenOk_Src_C15_ip Proofs.GenOk_Src_C15_b85 Proofs.GenOk_Src_C15_views
   Proofs.GenOk_Src_C08 Proofs.GenOk_Src_C08_b.
+From NV Require Proofs.GenOk_Src_C01_text.
 Import ListNotations.
 Close Scope string_scope.
 Open Scope Z_scope.
@@ -351,4 +352,17 @@ Lemma bytes_to_bits_code :
   src_strategy_bytes_to_bits = Ok (map (fun n => str_of (spec_bin_fixed 8 (Z.of_nat n))) (seq 0 256)).
 Proof.
   destruct C15_tie_ip_ok as (_ & (_ & ->) & _). apply f_equal. apply map_ext. intros n. now rewrite byte_bits_spec.
+Qed.
+
+(* int_to_arpa of both IP strategy modules (ipv6.int_to_arpa goes through ipv6.int_to_str with the verbose dialect, whence the
+   back-end parameter: Platform = the oracle Std6 of Model/IpText.v, Fallback = netaddr.fbsocket) *)
+Lemma arpa_code :
+  (forall v, 0 <= v < 2 ^ 32 -> src_ipv4_int_to_arpa v = Ok (spec_arpa4 v)) /\
+  (forall be v, 0 <= v < 2 ^ 128 -> src_ipv6_int_to_arpa be v = Ok (spec_arpa6 v)).
+Proof.
+  split.
+  - intros v Hv. destruct C15_tie_ip_ok as (_ & _ & _ & T4 & _). destruct T4 as (_ & _ & _ & _ & _ & _ & _ & _ & _ & _ & _ & ->).
+    pose proof (encode_spec _ _ row4 row4 v builtin4 Hv) as (_ & _ & _ & _ & _ & _ & _ & _ & E & _). now apply E.
+  - intros be v Hv. rewrite GenOk_Src_C01_text.src_ipv6_int_to_arpa_ok.
+    pose proof (encode_spec _ _ row6 row6 v builtin6 Hv) as (_ & _ & _ & _ & _ & _ & _ & _ & _ & E). now apply E.
 Qed.
